@@ -33,9 +33,10 @@ BUDGET = {
     "quick": dict(examples=500, shards=16, seconds=200),
     "thorough": dict(examples=3000, shards=16, seconds=2400),
 }
-ESSENTIAL_LABELS = {t: ["answered", "line6", "line9", "worlds>=2", "merged-or-relabelled"] for t in ("quick", "thorough")}
+ESSENTIAL_LABELS = {t: ["answered", "line6", "line9", "worlds>=2", "merged-or-relabelled", "zero", "plus-mark"] for t in ("quick", "thorough")}
 
-REGIONS = ["event_has_plus_mark", "bidirected_and_uncovered_ancestor", "bidirected_and_subscript_name_is_event_variable", "subscript_name_is_summed_ancestor"]
+REGION_F13A = "idstar_plus_value_turned_into_subscript"
+REGIONS = [REGION_F13A, "bidirected_and_uncovered_ancestor", "bidirected_and_subscript_name_is_event_variable", "subscript_name_is_summed_ancestor"]
 
 
 @st.composite
@@ -49,6 +50,7 @@ def strategy(tier):
     mx = 4 if tier == "quick" else 5
     return st.one_of(
         _case(gen.admgs(2, mx), True),
+        _case(gen.admgs(2, mx, bi_densities=(0, 2), di_densities=(4, 6, 8)), True),
         _case(gen.admgs(2, mx), False),
         _case(gen.admgs(2, mx, bi_densities=(0,), di_densities=(4, 6, 8)), False),
         _case(gen.admgs(2, mx, bi_densities=(3, 5), di_densities=(4, 6, 8)), False),
@@ -125,9 +127,11 @@ def bucket_features(case):
     return {x for x in f if not x.startswith("worlds=")} | ({"multiworld"} if "worlds=1" not in f else set())
 
 
-def in_region(case):
+def in_region(case, broad_plus=True):
+    """Input-level regions.  C07 itself decides finding F13a at the call site (broad_plus=False); C08 keeps the broad
+    input region for it."""
     f = bucket_features(case)
-    if "plus-mark" in f:
+    if "plus-mark" in f and broad_plus:
         return "event_has_plus_mark"
     if "bidirected" in f and "uncovered-ancestor" in f:
         return "bidirected_and_uncovered_ancestor"
@@ -217,7 +221,7 @@ def check(case, ignore_regions=False) -> Outcome:
     out = Outcome(key=graph_key(g) + "|" + cfutil.show(items))
     labels = set(cfutil.features(g, items))
     if not ignore_regions:
-        r = in_region(case)
+        r = in_region(case, broad_plus=False)
         if r and (r in open_regions(ID) or os.environ.get("VF_C07_ALL_REGIONS")):
             out.excluded = r
             return out
@@ -232,7 +236,25 @@ def check(case, ignore_regions=False) -> Outcome:
         return out
 
     relabelled = []
-    with CallTrace(ids, ["id_star_line_6", "id_star_line_9", "make_counterfactual_graph", "get_conflicts"]) as tr:
+    plus_lost = []
+
+    def on_district(a, k, r):
+        # F13a call-site predicate: a Markov-pillow node whose event value is '+' is turned into a '-' subscript
+        cg_, district_, ev_ = a[0], a[1], a[2]
+        try:
+            for node in cg_.get_markov_pillow(district_):
+                val = ev_.get(node)
+                if val is not None and val.star:
+                    plus_lost.append(str(node))
+                # a self-intervened pillow node X@+x stands for the value x'; as a subscript it becomes '-x' too
+                for i in getattr(node, "interventions", ()):
+                    if i.name == node.name and i.star:
+                        plus_lost.append(str(node))
+        except Exception:
+            pass
+
+    with CallTrace(ids, ["id_star_line_6", "id_star_line_9", "make_counterfactual_graph", "get_conflicts", "get_events_of_district"]) as tr:
+        tr.observe("get_events_of_district", on_district)
         tr.observe("make_counterfactual_graph", lambda a, k, r: relabelled.append(r[1] is not None and set(r[1]) != set(a[1])))
         try:
             est = id_star(graph, dict(event))
@@ -252,6 +274,11 @@ def check(case, ignore_regions=False) -> Outcome:
         labels.add("tracing-unavailable")
     if not isinstance(est, Expression):
         return fail("non-expression-returned", type=str(type(est)))
+    if plus_lost:
+        labels.add("plus-value-turned-into-subscript")
+        if not ignore_regions and (REGION_F13A in open_regions(ID) or os.environ.get("VF_C07_ALL_REGIONS")):
+            out.excluded = REGION_F13A
+            return out
     labels.add("zero" if isinstance(est, Zero) else "answered")
     if "worlds=1" not in labels:
         labels.add("worlds>=2")
